@@ -46,7 +46,11 @@ class Ctx:
         self.data = pipeline.data
 
     def cfgs(self, quick=("000", "111")):
-        return list(quick) if self.tier == "quick" else ["000", "001", "010", "011", "100", "101", "110", "111"]
+        # thorough tier — and the search for a failing input once the proof / tie is broken (a defect may
+        # live in a mixed configuration only): all eight
+        if self.tier == "quick" and not getattr(self, "use_baseline", False):
+            return list(quick)
+        return ["000", "001", "010", "011", "100", "101", "110", "111"]
 
     def baseline(self):
         base = os.path.join(ROOT, "tools", "baseline_schema.json")
@@ -185,7 +189,7 @@ def execute(ctx, cases, corr):
             corr["oracle_failures"].append(c)
         elif getattr(c, "check_canon", None) and c.impl not in ("err", "-") and not c.impl.startswith(("panic", "bad", "abort")):
             import canoncheck
-            hx = c.impl.split(" ")[-1] if c.check_canon == "last" else c.impl
+            hx = c.impl.split(" ")[-1] if (c.check_canon == "last" or isinstance(c.check_canon, tuple)) else c.impl
             try:
                 raw = bytes.fromhex(hx)
             except ValueError:
@@ -193,6 +197,8 @@ def execute(ctx, cases, corr):
             if raw is not None:
                 if c.check_canon == "resp":
                     raw = raw[1:]           # status byte, then the body (empty body = no item at all)
+                elif isinstance(c.check_canon, tuple) and c.check_canon[0] == "adat":
+                    raw = raw[c.check_canon[1]:]   # the extension map at the tail of authenticator data
                 why = canoncheck.check(raw) if raw else None
                 if why:
                     c.oracle = "not canonical: " + why
@@ -296,7 +302,7 @@ INDEPENDENT = {
     "consts": {"C19"},
     "fingerprints": set(),
     "gating": set(ALL_PIDS) - {"C16"},
-    "layouts": set(ALL_PIDS) - {"C07", "C09"},
+    "layouts": set(ALL_PIDS) - {"C03", "C07", "C09"},
     "u2fprog": set(ALL_PIDS) - {"C08", "C10"},
     "strhelpers": {"C07", "C08", "C09", "C10", "C11", "C17", "C18", "C19"},
     "arbtree": set(ALL_PIDS) - {"C19"},
@@ -382,6 +388,13 @@ def cases_c11(ctx, boost):
                 # parameter-bearing commands with arbitrary payloads are C01/C05 territory; C11's oracle
                 # speaks about them only through the command classification, which `req` exercises anyway
                 out.append(Case("req", cfg, f"req {cfg} {hx}", tag="byte+payload"))
+        cm = [f"a101{n:02x}" for n in range(0, 10)] + ["a2010402a101" + "5820" + "11" * 32, "a20106" + "02a102a2626964412a6474797065" + "6a7075626c69632d6b6579",
+              "a3010703182a04" + "41aa", "a1011818", "a10161", "a0", "a10107ff", "a2010701"]
+        for p in cm:
+            a = Case("req", cfg, f"req {cfg} 0a{p}", tag="0x0A")
+            b_ = Case("req", cfg, f"req {cfg} 41{p}", tag="0x41 decodes exactly like 0x0A")
+            b_.same_as = a
+            out += [a, b_]
     return out
 
 
@@ -687,9 +700,9 @@ def cases_c10(ctx, boost):
                     out.append(Case("call2", cfg, f"call2 {entry} lb {b:02x} {f}", tag="Vendor decoded"))
     reg = build_apdu(0, 1, 0, 0, rng.randbytes(64), None, False).hex()
     auth = bytearray(rng.randbytes(65 + 9)); auth[64] = 9
-    auth = build_apdu(0, 2, 3, 0, bytes(auth), None, False).hex()
+    auths = [build_apdu(0, 2, p1, 0, bytes(auth), None, False).hex() for p1 in (3, 7, 8)]
     ver = build_apdu(0, 3, 0, 0, b"", None, False).hex()
-    for apdu in (reg, auth, ver):
+    for apdu in [reg] + auths + [ver]:
         for entry in ("direct", "rpc"):
             for f in ("-", "register", "authenticate", "version"):
                 out.append(Case("call1", cfg, f"call1 {entry} {apdu} {f}", tag="ctap1"))
@@ -1255,6 +1268,29 @@ def cases_c03(ctx, boost):
             c = Case("enc", cfg, f"enc {cfg} {gi} {show(('r', slots))}", f"enc {cfg} resp:GetInfo {show(('r', slots))}", tag="integer thresholds")
             c.check_canon = True
             out.append(c)
+        # the extension map at the tail of authenticator data, where the whole still fits and where it does not
+        # (an error is fine; a cut-off map is not one well-formed item)
+        cap = ctx.data["tables"]["consts"]["AUTHENTICATOR_DATA_LENGTH"]
+        for fl in ("MC", "GA"):
+            t = {"named": g.s.roles["adExt" + fl]}
+            for _ in range(3 * boost):
+                v = g.rand_val(t, p_opt=1.0)
+                ext_len = len(g.s.ref_encode(t, v, canonical=False))
+                rp = rng.randbytes(32).hex()
+                if fl == "GA":
+                    c = Case("adat", cfg, f"adat {cfg} GA {rp} 13 7 - {show(v)}", tag="authData + extensions")
+                    c.check_canon = ("adat", 37)
+                    out.append(c)
+                    continue
+                pk = 77
+                for total in (cap - 40, cap - 1, cap, cap + 1, cap + 3, cap + ext_len - 1, cap + ext_len, cap + ext_len + 1):
+                    n = total - 37 - 16 - 2 - pk - ext_len
+                    if n < 0 or n > 65535:
+                        continue
+                    c = Case("adat", cfg, f"adat {cfg} MC {rp} 13 7 {'cc' * 16}:{n}:5:{'a5' * pk} {show(v)}",
+                             tag="authData + extensions at the capacity frontier")
+                    c.check_canon = ("adat", 37 + 16 + 2 + n + pk)
+                    out.append(c)
     return out
 
 
@@ -1289,6 +1325,9 @@ def cases_c02(ctx, boost):
                     v = ('r', slots)
                     if g.val_buildable(t, v):
                         out.append(Case("resp", cfg, f"resp {cfg} {variant} {show(v)} 8192 -", tag=f"{variant} subset"))
+                        if attempt == 0 and len(sub) <= 1:
+                            # the buffer's previous content (a reused buffer) does not matter
+                            out.append(Case("resp", cfg, f"resp {cfg} {variant} {show(v)} 8192 {'a07f' * 4}", tag=f"{variant} reused buffer"))
                         if variant == "GetAssertion":
                             out.append(Case("resp", cfg, f"resp {cfg} GetNextAssertion {show(v)} 8192 -", tag="GetNextAssertion"))
                         break
@@ -1424,6 +1463,15 @@ def cases_c16(ctx, boost):
                 for cb_ in CMD_BYTE.get(variant, []):
                     pair(Case("req", a, f"req {a} {cb_:02x}{body.hex()}", tag=f"req {variant} {tag}"),
                          Case("req", b, f"req {b} {cb_:02x}{body.hex()}", tag=f"req {variant} {tag}"), expect)
+        # ---- LargeBlobs `set` fragments around the feature-dependent fragment constant (a request uses common members only)
+        if "LargeBlobs" in vrb:
+            from pymodel import head as chead
+            lbc = ctx.data["tables"]["consts"].get("LARGE_BLOB_MAX_FRAGMENT_LENGTH", {})
+            lens = sorted({0, 1, 23, 24, 255, 256, 1024, 4000, 7000} | {x + d for x in lbc.values() for d in (-1, 0, 1) if 0 <= x + d <= 7000})
+            for L in lens:
+                body = chead(5, 3) + bytes([2]) + chead(2, L) + rng.randbytes(L) + bytes([3]) + chead(0, 0) + bytes([4]) + chead(0, L)
+                pair(Case("req", a, f"req {a} 0c{body.hex()}", tag="req LargeBlobs set fragment"),
+                     Case("req", b, f"req {b} 0c{body.hex()}", tag="req LargeBlobs set fragment"), lambda x: x)
         # ---- every (de)serialisable type reachable from the roles
         refs_b = {key: path for path, key, _ in gb.all_refs()}
         for path, key, t in ga.all_refs():
@@ -1545,6 +1593,28 @@ def cases_c04(ctx, boost):
             out.append(np(Case("req", cfg, f"req {cfg} {cb:02x}a10159{big - 4:04x}{'41' * (big - 4)}", tag="maximal byte string")))
             out.append(np(Case("req", cfg, f"req {cfg} {cb:02x}a10279{big - 4:04x}{'41' * (big - 4)}", tag="maximal text string")))
             out.append(np(Case("req", cfg, f"req {cfg} {cb:02x}a10399{(big - 4):04x}{'00' * (big - 4)}", tag="maximal list")))
+    # ---- hundreds of entries in the two lossy lists (counters, accumulators), in a request and stand-alone
+    for cfg in ctx.cfgs(("000", "111")):
+        g = ctx.gen(cfg, salt=77)
+        rng = g.rng
+        refs = {key: path for path, key, _ in g.all_refs()}
+        fkey = [k for k in refs if k.endswith("FilteredPublicKeyCredentialParameters")][0]
+        akey = [k for k in refs if k.endswith("AttestationFormatsPreference")][0]
+        from pymodel import head as chead, ctext, cint
+        def entry(alg, ty):
+            return chead(5, 2) + ctext("alg") + cint(alg) + ctext("type") + ctext(ty)
+        for n in (255, 256, 257, 300):
+            for mix in ("unknown", "repeat", "mixed"):
+                ents = b"".join(entry(-257 if mix == "unknown" else (-7 if mix == "repeat" else rng.choice([-7, -8, -257, -35])), "public-key")
+                                for _ in range(n))
+                lst = chead(4, n) + ents
+                out.append(np(Case("dec", cfg, f"dec {cfg} {fkey} {lst.hex()}", f"dec {cfg} {refs[fkey]} {lst.hex()}", tag=f"params list of {n} ({mix})")))
+                if len(lst) < 7300:
+                    mc = bytes([1]) + chead(5, 4) + bytes([1]) + chead(2, 32) + bytes(32) + bytes([2]) + chead(5, 1) + ctext("id") + ctext("example.org") + \
+                        bytes([3]) + chead(5, 1) + ctext("id") + chead(2, 1) + b"u" + bytes([4]) + lst
+                    out.append(np(Case("req", cfg, f"req {cfg} {mc.hex()}", tag=f"MakeCredential with {n} parameters ({mix})")))
+            fm = chead(4, n) + b"".join(ctext(rng.choice(["packed", "none", "tpm"]) if n % 2 else "packed") for _ in range(n))
+            out.append(np(Case("dec", cfg, f"dec {cfg} {akey} {fm.hex()}", f"dec {cfg} {refs[akey]} {fm.hex()}", tag=f"formats list of {n}")))
     # ---- structure-level mutation: every bounded member across its limit (shared with C12)
     for c in cases_c12(ctx, boost):
         out.append(np(c))
